@@ -177,6 +177,8 @@ def any_profile(reopen_ok=False, weights=None, with_manydirs=False):
         table['manydirs'] = manydirs()
     if 'exactfill' in w:
         table['exactfill'] = exactfill(reopen_ok=reopen_ok)
+    if 'cegap' in w:
+        table['cegap'] = cegap(reopen_ok=reopen_ok)
     alts = []
     for name, n in w.items():
         s = table[name].map(lambda p, name=name: dict(p, profile=name))
@@ -329,3 +331,31 @@ def exactfill(cfg=None, reopen_ok=False):
     tail = st.lists(st.one_of(*tail_choices), min_size=0, max_size=5)
     return program(c, st.builds(build, st.sampled_from(['iso', 'iso', 'jol', 'udf']), st.sampled_from([1, 1, 2]), st.lists(I, min_size=8, max_size=8),
                                 st.lists(I, min_size=6, max_size=6), extra, tail, st.booleans()))
+
+
+def cegap(cfg=None, reopen_ok=False):
+    """Rock Ridge continuation blocks with holes: several entries whose names spill into one
+    continuation block, removal of one in the middle, then an add whose continuation area is the
+    hole's size -1/+0/+1/+2 (and, at the block end, entries that fill the block to the byte)."""
+    c = cfg if cfg is not None else cfg_st(rr=st.sampled_from(['1.09', '1.10', '1.12']))
+
+    def build(lens, victim, deltas, mids, tail, lead):
+        ops = []
+        for i, n in enumerate(lens):
+            ops.append({'k': 'add_fp', 'd': 0, 'ns': 1, 'len': [0, 1, 2049][i % 3], 'sz': 0, 'rsz': 0, 'usz': 0, 'lead': lead + i, 'salt': i,
+                        'mode': None, 'ck': 0, 'file': False, 'xl': {'iso': 10, 'rr': n}})
+        j = victim % len(lens)
+        ops += mids[:1]
+        ops.append({'k': 'rm_file', 'b': j, 'j': 0})
+        ops += mids[1:]
+        for k, dl in enumerate(deltas):
+            ops.append({'k': 'add_fp', 'd': 0, 'ns': 1, 'len': 1, 'sz': 0, 'rsz': 0, 'usz': 0, 'lead': lead + 40 + k, 'salt': k,
+                        'mode': None, 'ck': 0, 'file': False, 'xl': {'iso': 10, 'rr': max(4, lens[j] + dl)}})
+        return ops + tail
+    mid_choices = [write, force, query]
+    if reopen_ok:
+        mid_choices += [reopen, reopen]
+    mids = st.lists(st.one_of(*mid_choices), min_size=0, max_size=2)
+    tail = st.lists(st.one_of(rm_file, add_fp(d=st.just(0), rsz=st.integers(3, 6), file=st.just(False)), query), min_size=0, max_size=4)
+    return program(c, st.builds(build, st.lists(st.integers(115, 240), min_size=3, max_size=16), I, st.lists(st.sampled_from([-1, 0, 1, 1, 2]), min_size=1, max_size=3),
+                                mids, tail, st.integers(0, 20)))
